@@ -574,6 +574,125 @@ theorem ping_wire (w : World) (h : Calm w) (hr : w.recvScript = []) (hib : w.inb
 
 end
 
+/-! ### the ISUPPORT preamble -/
+
+theorem supGet_supSet (d : Supported) (k k' : Str) (v : Val) :
+    supGet (supSet d k v) k' = if k' = k then some v else supGet d k' := by
+  induction d with
+  | nil =>
+    simp only [supSet, supGet]
+    by_cases h : k = k'
+    · subst h; simp
+    · have h' : ¬ k' = k := fun e => h e.symm
+      simp [h, h']
+  | cons p rest ih =>
+    obtain ⟨a, b⟩ := p
+    unfold supSet
+    by_cases hak : a = k
+    · subst hak
+      simp only [↓reduceIte, supGet]
+      by_cases h : a = k'
+      · subst h; simp
+      · have h' : ¬ k' = a := fun e => h e.symm
+        simp [h, h']
+    · simp only [hak, ↓reduceIte, supGet]
+      by_cases h : a = k'
+      · subst h
+        have : ¬ a = k := hak
+        simp [this]
+      · simp only [h, ↓reduceIte]
+        exact ih
+
+/-- what `Irc.isChannel` may find: `chantypes` is `None` or a str, `channellen` is `None` or an int -/
+structure SupTyped (d : Supported) : Prop where
+  ct : ∀ v, supGet d "chantypes".toList = some v → v = .none ∨ ∃ s, v = .str s
+  cl : ∀ v, supGet d "channellen".toList = some v → v = .none ∨ ∃ n, v = .int n
+
+theorem supTyped_nil : SupTyped [] := ⟨fun v h => by simp [supGet] at h, fun v h => by simp [supGet] at h⟩
+
+theorem supTyped_token (intOf : Str → Option Int) (d : Supported) (arg : Str) (h : SupTyped d) :
+    SupTyped (do005Token intOf d arg) := by
+  unfold do005Token
+  cases hs : split1 '=' arg with
+  | none =>
+    simp only
+    refine ⟨fun v hv => ?_, fun v hv => ?_⟩ <;>
+    · rw [supGet_supSet] at hv
+      split at hv
+      · injection hv with hv; exact Or.inl hv.symm
+      · first | exact h.ct v hv | exact h.cl v hv
+  | some p =>
+    obtain ⟨name, value⟩ := p
+    simp only
+    split
+    · rename_i hname
+      cases hi : intOf value with
+      | none => exact h
+      | some n =>
+        refine ⟨fun v hv => ?_, fun v hv => ?_⟩
+        · rw [supGet_supSet, hname] at hv
+          simp only [show ("chantypes".toList = "channellen".toList) = False by decide, ↓reduceIte] at hv
+          exact h.ct v hv
+        · rw [supGet_supSet] at hv
+          split at hv
+          · injection hv with hv; exact Or.inr ⟨n, hv.symm⟩
+          · exact h.cl v hv
+    · rename_i hname
+      refine ⟨fun v hv => ?_, fun v hv => ?_⟩
+      · rw [supGet_supSet] at hv
+        split at hv
+        · injection hv with hv; exact Or.inr ⟨value, hv.symm⟩
+        · exact h.ct v hv
+      · rw [supGet_supSet] at hv
+        split at hv
+        · rename_i heq; exact absurd heq.symm hname
+        · exact h.cl v hv
+
+theorem supTyped_do005 (intOf : Str → Option Int) (tokens : List Str) (d : Supported) (h : SupTyped d) :
+    SupTyped (do005 intOf d tokens) := by
+  induction tokens generalizing d with
+  | nil => exact h
+  | cons t ts ih => exact ih _ (supTyped_token intOf d t h)
+
+theorem utilsIsChannel_total (s ct : Str) (n : Int) : ∃ b, utilsIsChannel s (.str ct) (.int n) = .ok b := by
+  unfold utilsIsChannel
+  cases s with
+  | nil => exact ⟨_, rfl⟩
+  | cons c cs =>
+    simp only [pyIn, pyLe]
+    split
+    · exact ⟨_, rfl⟩
+    · split
+      · rename_i e he; cases he
+      · exact ⟨_, rfl⟩
+      · split
+        · rename_i e he; cases he
+        · exact ⟨_, rfl⟩
+        · exact ⟨_, rfl⟩
+
+theorem ircIsChannel_total (d : Supported) (h : SupTyped d) (s : Str) : ∃ b, ircIsChannel d s = .ok b := by
+  have hct : ∃ t, ctOf d = Val.str t := by
+    unfold ctOf
+    cases hg : supGet d "chantypes".toList with
+    | none => exact ⟨_, rfl⟩
+    | some v =>
+      rcases h.ct v hg with rfl | ⟨t, rfl⟩
+      · exact ⟨_, rfl⟩
+      · exact ⟨t, by simp⟩
+  have hcl : ∃ n, clOf d = Val.int n := by
+    unfold clOf
+    cases hg : supGet d "channellen".toList with
+    | none => exact ⟨_, rfl⟩
+    | some v =>
+      rcases h.cl v hg with rfl | ⟨n, rfl⟩
+      · exact ⟨_, rfl⟩
+      · exact ⟨n, by simp⟩
+  obtain ⟨t, ht⟩ := hct
+  obtain ⟨n, hn⟩ := hcl
+  unfold ircIsChannel
+  rw [ht, hn]
+  exact utilsIsChannel_total s t n
+
 theorem utf8_mem_infix (s : Str) (l : List Str) (h : s ∈ l) :
     ∃ pre post, C11.utf8 l.flatten = pre ++ C11.utf8 s ++ post := by
   obtain ⟨l1, l2, rfl⟩ := List.append_of_mem h
